@@ -23,7 +23,9 @@ CrcParams(alg) ==
 Step(P, reg, b) == LET sh == Tail(reg) \o <<0>> IN IF reg[1] # b THEN XorBits(sh, P.poly) ELSE sh
 \* the 8 bits of a byte in the order they enter the register (reflected input: least significant bit first)
 BitOf(P, byte, k) == IF P.refin THEN (byte \div (2 ^ (k - 1))) % 2 ELSE (byte \div (2 ^ (8 - k))) % 2
-ByteStep(P, reg, byte) == LET S[k \in 0..8] == IF k = 0 THEN reg ELSE Step(P, S[k - 1], BitOf(P, byte, k)) IN S[8]
+\* (TLC evaluates operator arguments lazily: without forcing the previous register first, the evaluation of a long message
+\*  nests 8 levels per byte and overflows the Java stack; Len(reg) = P.w is always true and only forces the evaluation)
+ByteStep(P, reg, byte) == LET S[k \in 0..8] == IF k = 0 THEN reg ELSE Step(P, S[k - 1], BitOf(P, byte, k)) IN IF Len(reg) = P.w THEN S[8] ELSE <<>>
 CrcReg(P, msg) == LET R[j \in 0..Len(msg)] == IF j = 0 THEN P.init ELSE ByteStep(P, R[j - 1], msg[j]) IN R[Len(msg)]
 CrcBits(alg, msg) == LET P == CrcParams(alg)
                          r == CrcReg(P, msg)
